@@ -166,12 +166,16 @@ pub fn run(ctx: &Ctx) -> Report {
         let relations = w.relations();
         let mut configs: Vec<Compiled> = vec![];
         for q in key_world_queries() {
-            for cu in [1u64, 2] {
-                let name = format!("eps=1,delta=0.001,cu={cu},tau_share=0.5,pu=fk-path,types={variant}");
+            for (cu, share) in [(1u64, 0.5), (2, 0.5), (1, 0.2), (2, 0.8)] {
+                // the uneven shares on the declared types only
+                if share != 0.5 && variant != "declared" {
+                    continue;
+                }
+                let name = format!("eps=1,delta=0.001,cu={cu},tau_share={share},pu=fk-path,types={variant}");
                 if !ctx.wants(&format!("{} [{}]", q.sql, name)) {
                     continue;
                 }
-                let dp = DpParameters::new(1.0, 1e-3, 0.5, 100.0, 1.0, cu);
+                let dp = DpParameters::new(1.0, 1e-3, share, 100.0, 1.0, cu);
                 match compile_dp_with(&q, &name, &dp, &relations, crate::c18::privacy_unit()) {
                     CompileOutcome::Ok(c) => configs.push(c),
                     CompileOutcome::Refused(e) => head.reach("refused", &format!("{} :: {}", q.sql, e.chars().take(60).collect::<String>())),
@@ -215,6 +219,22 @@ fn explore(ctx: &Ctx, head: &mut Report, world: &World, configs: Vec<Compiled>, 
             for c in cs.iter() {
                 let case_id = format!("{} [{}]", c.query.sql, c.dp_name);
                 let pl = pipeline(c);
+                // the threshold literal is at least the tau required by the share of (epsilon, delta) reserved for key
+                // release (closed form re-implemented in dpchecks.rs), whatever the share
+                if let Some(p) = &pl {
+                    let (es, ds) = (c.dp.epsilon * c.dp.tau_thresholding_share, c.dp.delta * c.dp.tau_thresholding_share);
+                    let required = crate::dpchecks::ref_tau(es, ds, p.cu);
+                    if r.extra.get("tau_checked").and_then(|m| m.get(&case_id)).is_none() {
+                        r.reach("tau_checked", &case_id);
+                        if p.tau < required * (1.0 - 1e-6) {
+                            r.violation(
+                                format!("threshold-below-required-tau tags={}", c.query.tags.join("+")),
+                                &case_id,
+                                json!({"query": c.query.sql, "dp_parameters": c.dp_name, "tau_in_the_query": p.tau, "tau_required_by_the_key_release_share": required, "epsilon_share": es, "delta_share": ds, "cu": p.cu}),
+                            );
+                        }
+                    }
+                }
                 let plan = match e.plan(&c.rewritten) {
                     Ok(p) => p,
                     Err(err) => {
